@@ -147,3 +147,14 @@ prop(
          "non-trivial = at least two components; distinct = distinct programs",
     assumptions=["scenario code follows the documented contract"],
 )
+
+prop(
+    id="C16",
+    stages=[dict(name="c16comp", pkg="c16", test="TestC16Component", access=[WORKERS_ACCESS, RUN_ACCESS], timeout_quick=300, timeout_thorough=3000),
+            dict(name="c16runs", pkg="c16", test="TestC16Runs", access=[WORKERS_ACCESS, RUN_ACCESS], timeout_quick=300, timeout_thorough=3000)],
+    rule="random static label maps (0-7 keys from a pool with colliding prefixes and case variants; values equal to other keys, empty, non-ASCII) on private registries; "
+         "1-3 consecutive runs per instance with outcome mixes incl. drops and setup failures, (a) through the real ActiveScenario with the reset Run.Do performs, (b) through whole Run.Do runs; "
+         "Registry.Gather() canonicalised to (family, name/value pairs sorted by name, sample count) and compared exactly with the model; non-trivial = at least two static labels; distinct = distinct cases",
+    assumptions=["prometheus client: WithLabelValues pairs the i-th value with the i-th declared label name; Reset drops all series; Observe adds one sample (modelled)",
+                 "label maps have distinct keys (Go map)"],
+)
